@@ -5,6 +5,8 @@ import Dalek.Props.C01.Pow2k
 import Dalek.Props.C01.FieldChains
 import Dalek.Props.C01.Bytes51
 import Dalek.Props.C01.Bytes26
+import Dalek.Props.C01.Fiat51
+import Dalek.Props.C01.Fiat26
 import Dalek.Props.C01.Avx2
 import Dalek.Props.C01.Ifma
 import Dalek.Props.C01.VecFormulas
